@@ -400,6 +400,10 @@ fn aot(args: &Cli) -> anyhow::Result<()> {
         }
     }
 
+    // BufWriter's Drop impl swallows write errors (full disk, closed pipe), which would make us exit 0 with a
+    // truncated or empty script.
+    writer.flush().context(path.to_owned())?;
+
     Ok(())
 }
 
